@@ -275,6 +275,7 @@ func (c *ctx) cutQueries() int {
 // thorough adds the undirected graphs on 5 nodes over {absent,0,1} and every
 // 4-node digraph over {absent,0,1}.
 func genZeroCut(g *vlib.G) {
+	thorough := g.Thorough()
 	one := func(t *vlib.T, r *ref, idx int) {
 		if len(r.zero) == 0 {
 			t.Outcome("no zero-weight cycle")
@@ -315,7 +316,22 @@ func genZeroCut(g *vlib.G) {
 		odometer(len(ps), 2, func(idx int, digits []int) bool {
 			d := append([]int(nil), digits...)
 			g.Case("n=5 und w="+digitString(d, alpha0), func(t *vlib.T) {
-				one(t, newRef(specFromDigits(5, false, ps, d, alpha0)), idx)
+				r := newRef(specFromDigits(5, false, ps, d, alpha0))
+				if !thorough && idx%2 == 0 {
+					// quick: the model on every graph, sampling on every second
+					n := 0
+					for s := 0; s < r.n; s++ {
+						for tt := 0; tt < r.n; tt++ {
+							if r.cutRisk(s, tt, false) || r.cutRisk(s, tt, true) {
+								n++
+							}
+						}
+					}
+					t.Count("cut_queries_flagged_not_sampled", int64(n))
+					t.Outcome("model only")
+					return
+				}
+				one(t, r, idx)
 			})
 			return !g.Stopped()
 		})
